@@ -30,6 +30,9 @@ type Solver struct {
 	in      *bufio.Writer
 	inRaw   io.WriteCloser
 	out     *bufio.Reader
+	lines   chan string
+	dead    bool
+	timeout time.Duration
 	defined map[int]bool
 	declared map[string]bool
 	LastErr string
@@ -68,7 +71,20 @@ func StartSolver(kind string, timeoutMs int) (*Solver, error) {
 		return nil, err
 	}
 	s := &Solver{Kind: kind, cmd: cmd, in: bufio.NewWriterSize(in, 1<<16), inRaw: in, out: bufio.NewReaderSize(out, 1<<16),
-		defined: map[int]bool{}, declared: map[string]bool{}}
+		defined: map[int]bool{}, declared: map[string]bool{}, lines: make(chan string, 1024),
+		timeout: time.Duration(timeoutMs)*time.Millisecond + 10*time.Second}
+	go func(r *bufio.Reader, ch chan string) {
+		for {
+			line, err := r.ReadString('\n')
+			if line != "" {
+				ch <- line
+			}
+			if err != nil {
+				close(ch)
+				return
+			}
+		}
+	}(s.out, s.lines)
 	if kind == "cvc5" {
 		s.send("(set-logic ALL)")
 	}
@@ -211,6 +227,32 @@ func (s *Solver) account(r Result, start time.Time) {
 	}
 }
 
+// readLine returns the next output line, or ok=false when the solver died or
+// did not answer within its time limit (it is then killed; the engine restarts it).
+func (s *Solver) readLine() (string, bool) {
+	if s.dead {
+		return "", false
+	}
+	select {
+	case line, ok := <-s.lines:
+		if !ok {
+			s.dead = true
+			s.LastErr = "solver process ended"
+			return "", false
+		}
+		return line, true
+	case <-time.After(s.timeout):
+		s.dead = true
+		s.LastErr = "solver did not answer within its time limit; killed"
+		if s.cmd != nil && s.cmd.Process != nil {
+			s.cmd.Process.Kill()
+		}
+		return "", false
+	}
+}
+
+func (s *Solver) Dead() bool { return s.dead }
+
 func (s *Solver) readResult() Result {
 	if err := s.in.Flush(); err != nil {
 		s.LastErr = err.Error()
@@ -218,10 +260,9 @@ func (s *Solver) readResult() Result {
 	}
 	sawErr := false
 	for {
-		line, err := s.out.ReadString('\n')
-		if err != nil {
-			s.LastErr = "solver pipe: " + err.Error()
-			return Error
+		line, ok := s.readLine()
+		if !ok {
+			return Unknown
 		}
 		line = strings.TrimSpace(line)
 		if s.Log != nil {
@@ -305,9 +346,9 @@ func (s *Solver) readSexp() (string, error) {
 	depth := 0
 	started := false
 	for {
-		line, err := s.out.ReadString('\n')
-		if err != nil {
-			return "", err
+		line, ok := s.readLine()
+		if !ok {
+			return "", fmt.Errorf("solver gone: %s", s.LastErr)
 		}
 		if s.Log != nil {
 			fmt.Fprint(s.Log, "; <- "+line)
